@@ -696,6 +696,8 @@ int EGLPNUM_TYPENAME_ILLlib_getbnds_list (
 			{
 				QSlog("EGLPNUM_TYPENAME_ILLlib_getbnds_list collist[%d] = %d out "
 										"of range", j, collist[j]);
+				rval = 1;
+				ILL_CLEANUP;
 			}
 			col = qslp->structmap[collist[j]];
 			if (lower)
